@@ -10,6 +10,7 @@ import (
 	"os"
 	"sort"
 	"sync"
+	"sync/atomic"
 	"testing/iotest"
 
 	"github.com/foxglove/mcap/go/mcap"
@@ -485,7 +486,7 @@ type LexResult struct {
 func (r *LexResult) Clean() bool { return r.Panic == "" && r.OpenErr == nil && errors.Is(r.Err, io.EOF) }
 
 // LexAll drains a lexer over r, parsing every token into an Event (deep copies).
-var lexAllCalls int
+var lexAllCalls int64
 
 // keepRaw additionally keeps the raw token slices exactly as returned, for aliasing checks.
 func LexAll(r io.Reader, p LexParams, keepRaw bool) (res LexResult) {
@@ -573,8 +574,7 @@ func LexAll(r io.Reader, p LexParams, keepRaw bool) (res LexResult) {
 		return res
 	}
 	defer lx.Close()
-	lexAllCalls++
-	if lexAllCalls%2 == 0 {
+	if atomic.AddInt64(&lexAllCalls, 1)%2 == 0 {
 		defer lx.Close() // Close is called twice by the common 'defer Close()' + explicit Close() pair
 	}
 	var smallBuf [24]byte
@@ -737,6 +737,7 @@ func ReadMessagesTwice(r io.Reader, opts ...mcap.ReadOpt) (first, second IterRes
 // pendingTopicSlices holds the slices handed to WithTopics through Topics(): the reading helpers overwrite them
 // as soon as Messages() has returned, as a caller does that refills one scratch slice per read.
 var pendingTopicSlices [][]string
+var pendingTopicMu sync.Mutex
 
 // Topics is mcap.WithTopics for a caller that reuses its slice afterwards.
 func Topics(topics []string) mcap.ReadOpt {
@@ -744,12 +745,16 @@ func Topics(topics []string) mcap.ReadOpt {
 		return mcap.WithTopics(nil)
 	}
 	scratch := append(make([]string, 0, len(topics)+1), topics...)
+	pendingTopicMu.Lock()
 	pendingTopicSlices = append(pendingTopicSlices, scratch)
+	pendingTopicMu.Unlock()
 	return mcap.WithTopics(scratch)
 }
 
 // ScribbleTopics is called by whoever called Messages(), right after it returned.
 func ScribbleTopics() {
+	pendingTopicMu.Lock()
+	defer pendingTopicMu.Unlock()
 	for _, sl := range pendingTopicSlices {
 		for i := range sl {
 			sl[i] = "/overwritten-by-caller"
